@@ -594,6 +594,7 @@ fn c08_gen(free: bool) -> GenCfg {
         build_pct: 90,
         op_weights: [65, 30, 0, 1, 0],
         edge_ids: false,
+        cancel_pct: 12,
         ..GenCfg::small()
     }
 }
@@ -617,7 +618,7 @@ pub fn run_c08(tier: Tier) -> i32 {
     let out = run_generated(
         "C08-owned",
         env_seed(),
-        tier.pick(1500, 30_000),
+        tier.pick(4000, 40_000),
         || {
             (crate::gen::history(&g), vec((any::<u16>(), 0u8..4, prop_oneof![3 => Just(0u8), 4 => Just(1u8), 2 => Just(2u8)]), 4..40))
                 .prop_map(|(spec, acts)| OwnedCase { spec, actions: acts.into_iter().map(|(pos, reader, act)| ReaderAction { pos, reader, act }).collect() })
@@ -634,7 +635,7 @@ pub fn run_c08(tier: Tier) -> i32 {
     let out = run_generated(
         "C08-free",
         env_seed(),
-        tier.pick(64, 1500),
+        tier.pick(160, 2000),
         || (crate::gen::history(&g), 2usize..=8).prop_map(|(spec, readers)| FreeCase { spec, readers }),
         |c: &FreeCase| json!({"history": c.spec.render(), "readers": c.readers}),
         |c: &FreeCase, st: &mut CaseStats| with_metric!(c.spec.metric, D => free_case::<D>(c, st)),
